@@ -2,7 +2,7 @@
 import importlib
 import lib
 
-FAMILIES = ["forkchoice", "helpers", "forks"]
+FAMILIES = ["forkchoice", "helpers", "forks", "beacon"]
 
 
 def main(args):
